@@ -43,7 +43,16 @@ func profileByName(name string) Profile {
 		p.Invokes = [2]int{4, 10}
 	case "rejects":
 		p.PInvalid, p.PDup, p.PBackEdge, p.PInfo, p.PCallback = 0.35, 0.25, 0.25, 0.4, 0.3
-		p.MaxScopes = 5
+		p.MaxScopes, p.PDecorate, p.PVisualize, p.PFault = 4, 0.5, 0.15, 0.08
+	case "enc":
+		p.PSoft, p.PNested, p.PVariadic, p.PViaOpt, p.PFault, p.PInfo = 0, 0.5, 0.2, 0.3, 0.1, 0.3
+		p.PAs = 0.1
+	case "order":
+		p.PSoft, p.PFault, p.MaxScopes, p.PLateScope, p.PMidInvoke, p.PInvalid = 0, 0, 5, 0.5, 0.4, 0
+		p.PDefer = 0.3
+		p.PBackEdge = 0.04
+	case "dry":
+		p.PFault, p.MaxScopes, p.PInvalid, p.PDup, p.PBackEdge, p.PInfo, p.PVisualize = 0, 5, 0.15, 0.1, 0.15, 0.3, 0.1
 	case "info":
 		p.PInfo, p.PNested, p.PAs, p.PVariadic, p.PInvalid, p.PDup = 0.9, 0.6, 0.2, 0.3, 0.15, 0.1
 	case "callbacks":
